@@ -1365,5 +1365,9 @@ class Interpreter(BaseInterpreter[TContext, TEvent]):
             #    invokes a child machine per request.
             if child_interpreter is not None:
                 self._actors.pop(child_interpreter.id, None)
-                if child_interpreter.status == "running":
+                # 🏁 A child that FINISHED (done / error) is terminal but not
+                #    torn down: its own actors, timers and delayed sends only
+                #    go away through `stop()`, which is a no-op on an
+                #    interpreter that is already stopped.
+                if child_interpreter.status != "stopped":
                     await child_interpreter.stop()
